@@ -699,9 +699,16 @@ func c01IngestOnce(ctx *Ctx, k c01Case) *c01Result {
 		c01ReadBack(db, com.Table, res)
 		db.Close()
 		var out bytes.Buffer
-		res.ExportErr = c01Wrgl(&out, "export", "main")
+		// export with the default delimiter or, for every other case, with the case's own
+		exportDelim := ','
+		exportArgs := []string{"export", "main"}
+		if k.Delim != ',' && len(k.Rows)%2 == 0 {
+			exportDelim = k.Delim
+			exportArgs = append(exportArgs, "--delimiter", string(k.Delim))
+		}
+		res.ExportErr = c01Wrgl(&out, exportArgs...)
 		if res.ExportErr == nil {
-			res.Export, res.ExportErr = c01Parse(out.Bytes(), ',')
+			res.Export, res.ExportErr = c01Parse(out.Bytes(), exportDelim)
 		}
 		db, err = rd.OpenObjectsStore()
 		if err != nil {
@@ -987,7 +994,9 @@ func runC01(ctx *Ctx, c *xt.T) (*xt.T, Verdict) {
 
 var c01Cells = []string{"", "", "a", "b", "x", "0", "1", "00", "\"", "\"\"", ",", ";", "|", "\t", "\n", "\r", "a\nb",
 	"\x00", "\xff", "\xfe\xff", "é", " ", " a", "a ", "'", "\\", "\\.", "a,b", "a\"b"}
-var c01Delims = []rune{',', ',', ';', '\t', '|'}
+
+// delimiters, incl. runes that take 2 and 3 bytes in UTF-8
+var c01Delims = []rune{',', ',', ';', '\t', '|', '§', '¦', '·', '€'}
 var c01Workers = []int{1, 3, 4, 8, 16}
 
 type c01Gen struct {
@@ -1416,6 +1425,33 @@ func genC01(ctx *Ctx) []Case {
 			}
 		}
 		g.add("raw-text", len(k.Rows) >= 2, k)
+	}
+	// ---- CLI flag stream: wrgl commit / export driven through their flag parsers: --delimiter
+	// (every delimiter incl. multi-byte runes), -p, --mem-limit, -n ----
+	ncf := 14
+	if ctx.Thorough() {
+		ncf = 160
+	}
+	for i := 0; i < ncf; i++ {
+		var k c01Case
+		if i%2 == 0 {
+			k = g.rawTable(1)
+		} else {
+			k = g.randTable(120, false)
+		}
+		k.Kind = 1
+		if !c01CLINames(k.Columns) {
+			k.Columns = c01ColNames(len(k.Columns))
+			k.PKNames = nil
+			if i%3 != 0 {
+				k.PKNames = []string{k.Columns[len(k.Columns)-1]}
+			}
+		}
+		k.Delim = c01Delims[1+i%(len(c01Delims)-1)]
+		k.Workers = c01Workers[i%len(c01Workers)]
+		k.RunSize = []uint64{1, 64, 4096, 1 << 30}[i%4]
+		ctx.Count(fmt.Sprintf("cli_flag_delimiter_U+%04X", k.Delim))
+		g.add("cli-flags", len(k.Rows) >= 2, k)
 	}
 	// ---- forced worker schedules: blocks complete out of offset order ----
 	nf := 4
